@@ -1,2 +1,3 @@
 import FcpptModel.Model.C15.Bytes
+import FcpptModel.Model.C15.Text
 /-! C15 model: see the sub-modules `Model/C15/*.lean` (each lists the C++ files it mirrors). -/
